@@ -177,7 +177,11 @@ func runIPServer(ctx context.Context, log *slog.Logger, mtrcs *ipServerMetrics,
 			}
 
 			ntsresp := nts.NewResponsePacket(cookies, serverCookie.S2C, ntsreq.UniqueID.ID)
-			nts.EncodePacket(&buf, &ntsresp)
+			err = nts.EncodePacket(&buf, &ntsresp)
+			if err != nil {
+				log.LogAttrs(ctx, slog.LevelInfo, "failed to encode NTS packet", slog.Any("error", err))
+				continue
+			}
 		}
 
 		n, err = conn.WriteToUDPAddrPort(buf, srcAddr)
